@@ -338,7 +338,7 @@ func readerSchema(r *h.Rand, sc *gen.PSchema) (string, map[protoreflect.FullName
 
 func runC08(c *h.Ctx) {
 	c.Run("messages", c.N(8000, 300000), func(cs *h.Case) {
-		sc := gen.GenPSchema(cs.R, gen.PCfg{MaxDepth: 2, MaxFields: 6, Nested: cs.R.Bool(), Enums: true, BigNums: true, JSONNames: true, Optionals: cs.R.Bool()})
+		sc := gen.GenPSchema(cs.R, gen.PCfg{Unpacked: true, MaxDepth: 2, MaxFields: 6, Nested: cs.R.Bool(), Enums: true, BigNums: true, JSONNames: true, Optionals: cs.R.Bool()})
 		pc, err := PCompile(sc)
 		if err != nil {
 			cs.Cover("oracle_schema_rejected")
